@@ -119,7 +119,7 @@ Qed.
 Theorem parse_chk_ok now st d : parse_chk now st d = Ok (parse now st d).
 Proof.
   unfold parse_chk, parse. rewrite unpack_chk_ok. cbn [bind]. rewrite cp_loop_chk_ok. cbn [bind].
-  destruct (cp_loop now (ps_x st) (u_msgs (unpack (ps_hist st) d))) as [s1 outs]. cbn [fst snd].
+  destruct (cp_loop now (delete_timeout now (ps_x st)) (u_msgs (unpack (ps_hist st) d))) as [s1 outs]. cbn [fst snd].
   destruct (housekeeping now s1) as [s2 rrs]. reflexivity.
 Qed.
 
@@ -522,19 +522,20 @@ Lemma Ratt_own d c s1 s2 e : ev_conn e = c -> Ratt c s1 s2 -> Ratt c (stepatt d 
 Proof.
   intros He (H1 & H2 & Hc & Hl). pose proof (stepatt_alive d s1 e H1) as Ha.
   split. exact Ha. split. exact H2. revert Ha. unfold stepatt. rewrite H1.
-  assert (forall w, filter (off c) ((c, w) :: a_log s1) = filter (off c) (a_log s1)) as Hf.
-  { intros w. cbn [filter]. unfold off at 1. cbn [fst]. now rewrite N.eqb_refl. }
+  assert (forall (w : aobs) l, filter (off c) ((c, w) :: l) = filter (off c) l) as Hf.
+  { intros w l. cbn [filter]. unfold off at 1. cbn [fst]. now rewrite N.eqb_refl. }
   destruct e as [c0|c0 now seg|c0|c0]; cbn [ev_conn] in He; subst c0.
   - destruct (cfind c (a_conns s1)). auto. cbn [a_conns a_log]. now rewrite cremove_cset_same.
   - destruct (cfind c (a_conns s1)) as [[[k br]|]|]; auto. destruct seg as [|b seg]; auto.
     destruct (feed_chk d k (b :: seg)) as [[[w k'] stop]| |]; cbn [crashatt a_crashed]; try discriminate.
     cbv zeta. destruct stop.
     + destruct (on_event_chk d (set_stage _ ST_FAIL_QUIT)); cbn [crashatt a_crashed a_conns a_log]; try discriminate.
-      intros _. now rewrite cremove_cset_same, Hf.
+      intros _. now rewrite cremove_cset_same, !Hf.
     + cbn [a_conns a_log]. intros _. now rewrite cremove_cset_same, Hf.
   - destruct (cfind c (a_conns s1)) as [[[k br]|]|]; auto.
     + destruct (on_event_chk d (quit k)); cbn [crashatt a_crashed a_conns a_log]; try discriminate.
-      intros _. now rewrite cremove_idem.
+      intros _. rewrite cremove_idem. split. exact Hc.
+      unfold att_saves. destruct (on_quit_saves (quit k)) as [[dir files]|]; cbn [app]; rewrite ?Hf; exact Hl.
     + cbn [a_conns a_log]. now rewrite cremove_idem.
   - destruct (cfind c (a_conns s1)) as [[[k br]|]|]; auto.
     cbn [a_conns a_log]. now rewrite cremove_cset_same.
@@ -545,8 +546,8 @@ Proof.
   intros He (H1 & H2 & Hc & Hl).
   pose proof (stepatt_alive d s1 e H1) as Ha1. pose proof (stepatt_alive d s2 e H2) as Ha2.
   split. exact Ha1. split. exact Ha2. revert Ha1 Ha2. unfold stepatt. rewrite H1, H2.
-  assert (forall c0 w, c0 <> c -> filter (off c) ((c0, w) :: a_log s1) = (c0, w) :: filter (off c) (a_log s1)) as Hf.
-  { intros c0 w Hn. cbn [filter]. unfold off at 1. cbn [fst]. replace (c0 =? c) with false by lia. reflexivity. }
+  assert (forall c0 (w : aobs) l, c0 <> c -> filter (off c) ((c0, w) :: l) = (c0, w) :: filter (off c) l) as Hf.
+  { intros c0 w l Hn. cbn [filter]. unfold off at 1. cbn [fst]. replace (c0 =? c) with false by lia. reflexivity. }
   destruct e as [c0|c0 now seg|c0|c0]; cbn [ev_conn] in He; rewrite Hc, cfind_cremove_other by exact He.
   - destruct (cfind c0 (a_conns s1)). auto. cbn [a_conns a_log]. rewrite ?Hc, ?Hl. intros _ _.
     split. now rewrite cremove_cset_other. reflexivity.
@@ -554,11 +555,12 @@ Proof.
     destruct (feed_chk d k (b :: seg)) as [[[w k'] stop]| |]; cbn [crashatt a_crashed]; try discriminate.
     cbv zeta. destruct stop.
     + destruct (on_event_chk d (set_stage _ ST_FAIL_QUIT)); cbn [crashatt a_crashed a_conns a_log]; try discriminate.
-      intros _ _. rewrite ?Hc, ?Hl, Hf by exact He. split. now rewrite cremove_cset_other. reflexivity.
+      intros _ _. rewrite ?Hc, ?Hl, !Hf by exact He. split. now rewrite cremove_cset_other. reflexivity.
     + cbn [a_conns a_log]. intros _ _. rewrite ?Hc, ?Hl, Hf by exact He. split. now rewrite cremove_cset_other. reflexivity.
   - destruct (cfind c0 (a_conns s1)) as [[[k br]|]|]; auto.
     + destruct (on_event_chk d (quit k)); cbn [crashatt a_crashed a_conns a_log]; try discriminate.
-      intros _ _. rewrite ?Hc, ?Hl. split. apply cremove_comm. reflexivity.
+      intros _ _. rewrite ?Hc, ?Hl. split. apply cremove_comm.
+      unfold att_saves. destruct (on_quit_saves (quit k)) as [[dir files]|]; cbn [app]; rewrite ?Hf by exact He; reflexivity.
     + cbn [a_conns a_log]. intros _ _. rewrite ?Hc, ?Hl. split. apply cremove_comm. reflexivity.
   - destruct (cfind c0 (a_conns s1)) as [[[k br]|]|]; auto.
     cbn [a_conns a_log]. rewrite ?Hc, ?Hl. intros _ _. split. now rewrite cremove_cset_other. reflexivity.
@@ -578,7 +580,7 @@ Theorem isolation_att d evs c c' : c' <> c ->
 Proof.
   intros Hn. unfold runatt.
   destruct (Ratt_run d c evs initatt initatt) as (_ & _ & _ & Hl). { repeat split. }
-  unfold seenatt. rewrite Hl. f_equal. f_equal.
+  unfold seenatt. rewrite Hl. f_equal.
   rewrite !filter_rev. f_equal. symmetry. apply filter_filter_imp.
   intros x Hx. unfold off. apply N.eqb_eq in Hx. rewrite Hx. apply negb_true_iff. lia.
 Qed.
@@ -870,29 +872,45 @@ Proof.
 Qed.
 
 (* a connection that owns no key (it never joined, or every key it claimed was refused) is unclaimed *)
-Lemma unclaimed_keyless pa c : forall evs s,
-  (forall pre, holds_no_key c (fold_left (step808 pa) pre s) = true) -> unclaimed pa c s evs = true.
+Lemma never_owns_prefixes pa c s evs : never_owns pa c s evs = true ->
+  forall n, holds_no_key c (fold_left (step808 pa) (firstn n evs) s) = true.
+Proof.
+  unfold never_owns. intros H n. rewrite forallb_forall in H.
+  destruct (Nat.le_gt_cases n (length evs)) as [Hn|Hn].
+  - apply H. apply in_seq. lia.
+  - rewrite firstn_all2 by lia. rewrite <- (firstn_all evs). apply H. apply in_seq. lia.
+Qed.
+
+(* the hypothesis speaks about the prefixes of THIS run only *)
+Lemma unclaimed_keyless_n pa c : forall evs s,
+  (forall n, holds_no_key c (fold_left (step808 pa) (firstn n evs) s) = true) -> unclaimed pa c s evs = true.
 Proof.
   induction evs as [|e evs IH]; intros s H; cbn [unclaimed]. reflexivity.
   apply andb_true_iff. split.
-  - specialize (H []). cbn [fold_left] in H. unfold holds_no_key in H.
+  - specialize (H 0%nat). cbn [firstn fold_left] in H. unfold holds_no_key in H.
     destruct e as [c0|c0 now d|c0|c0]; try reflexivity.
     destruct (c0 =? c); cbn [orb]. reflexivity.
     destruct (cfind c0 (v_conns s)); [|reflexivity]. destruct (cfind c (v_conns s)) as [kc|]; [|reflexivity].
     destruct (k_key kc). discriminate. reflexivity.
-  - apply IH. intros pre. apply (H (e :: pre)).
+  - apply IH. intros n. apply (H (S n)).
 Qed.
+
+Lemma unclaimed_keyless pa c evs s : never_owns pa c s evs = true -> unclaimed pa c s evs = true.
+Proof. intros H. apply unclaimed_keyless_n. apply never_owns_prefixes, H. Qed.
 
 (* a connection that never joined the registry (no valid frame of a registered type other than 0x8003
    was ever delivered on it) satisfies the side condition whatever the others do *)
-Lemma iso_ok_unjoined pa c : forall evs s,
-  (forall pre, holds_no_key c (fold_left (step808 pa) pre s) = true) -> iso_ok pa c s evs = true.
+Lemma iso_ok_unjoined_n pa c : forall evs s,
+  (forall n, holds_no_key c (fold_left (step808 pa) (firstn n evs) s) = true) -> iso_ok pa c s evs = true.
 Proof.
   induction evs as [|e evs IH]; intros s H; cbn [iso_ok]. reflexivity.
   apply andb_true_iff. split.
-  - specialize (H []). cbn [fold_left] in H. rewrite H. now rewrite !orb_true_r.
-  - apply IH. intros pre. apply (H (e :: pre)).
+  - specialize (H 0%nat). cbn [firstn fold_left] in H. rewrite H. now rewrite !orb_true_r.
+  - apply IH. intros n. apply (H (S n)).
 Qed.
+
+Lemma iso_ok_unjoined pa c evs s : never_owns pa c s evs = true -> iso_ok pa c s evs = true.
+Proof. intros H. apply iso_ok_unjoined_n. apply never_owns_prefixes, H. Qed.
 
 (* ---------------- an established session depends on nothing but its own bytes ---------------- *)
 Lemma deliver_all_keeps_key pa t : forall ps c key r, k_key c = Some key ->
@@ -1152,3 +1170,30 @@ Theorem registry_one_owner pa evs c1 c2 k1 k2 key :
   cfind c1 (v_conns (run808 pa evs)) = Some k1 -> cfind c2 (v_conns (run808 pa evs)) = Some k2 ->
   k_key k1 = Some key -> k_key k2 = Some key -> c1 = c2.
 Proof. exact (proj2 (one_owner_reachable pa evs) c1 c2 k1 k2 key). Qed.
+
+(* a connection that owns no key during this run can be removed without a trace *)
+Theorem isolation_808_keyless pa evs c c' : c' <> c -> never_owns pa c init808 evs = true ->
+  seen808 c' (run808 pa evs) = seen808 c' (run808 pa (without c evs)).
+Proof. intros Hn H. apply isolation_808_unclaimed. exact Hn. apply unclaimed_keyless, H. Qed.
+
+(* every id of createDefaultHandle is parsed by one of the models behind handler_parse_chk: the fallback
+   "Err 98: unknown to Total_msgs.parse_msg" is never what a registered type gets *)
+Definition special_id (id : N) : bool :=
+  (id =? 0x0200) || (id =? 0x0704) || (id =? 0x0801) || (id =? 0x0102) || (id =? 0x1210) || (id =? 0x1211) || (id =? 0x1212).
+Theorem parse_all_covers_registered :
+  forallb (fun id => special_id id || existsb (N.eqb id) Total_msgs.modelled_ids) (map fst Reply.default_handles) = true.
+Proof. vm_compute. reflexivity. Qed.
+
+(* what the final event of an attachment connection stores lies under the directory named after the terminal number of
+   ITS OWN last message, every path being ./<that number>/<an accepted plain name> (Props/C19: such a path resolves
+   strictly inside that directory).  Connections of different terminals therefore never write the same file. *)
+Lemma att_saves_shape c k dir files : In (c, ASaved dir files) (att_saves c k) ->
+  exists m, s_recent k = Some m /\ dir = phone_of m /\
+  forall p, In p files -> exists nm, JT.Model.Paths.accepted nm = true /\ fst p = JT.Model.Paths.save_path (phone_of m) nm.
+Proof.
+  unfold att_saves, on_quit_saves. destruct (s_stage (quit k) =? ST_SUCCESS_QUIT); [|intros []].
+  change (s_recent (quit k)) with (s_recent k). destruct (s_recent k) as [m|]; [|intros []].
+  intros [E|[]]. injection E as <- <-. exists m. split. reflexivity. split. reflexivity.
+  intros p Hp. apply in_map_iff in Hp. destruct Hp as (r & <- & Hr). apply filter_In in Hr.
+  exists (fst r). split. apply Hr. reflexivity.
+Qed.
